@@ -167,7 +167,16 @@ Definition check_case (sel : N) (cs : list int * (list (list int) * list (list i
         else if want 16 && N.eqb (w_class w) 20 && negb nothing then mkV 220 0
         else if want 14 && N.eqb (w_class w) 20 && negb nothing then mkV 232 0
         else if want 14 && negb (N.eqb (w_class w) 20) && negb (nothing || unchanged) then
-               (if N.eqb (w_class w) 1 then mkV 231 0 else mkV 230 0)
+               (if N.eqb (w_class w) 1 then
+                  (* the version byte is outside the authenticated data (known finding D-C14): a flipped copy is
+                     acted on when the plaintext happens to carry a well-formed padding under the other version.
+                     That is what the model of the repaired code does too; anything the model rejects and the
+                     implementation accepts (e.g. a padding that is not well-formed) is a new violation *)
+                  match model_in with
+                  | Ok ds => if same (map proj_delivery ds) obs_d then mkV 231 0 else mkV 233 0
+                  | _ => mkV 233 0
+                  end
+                else mkV 230 0)
         else corr_in
       else if N.eqb (w_kind w) 5 then
         (* ---- encryption enforced but it failed: whatever left must still be sealed ---- *)
@@ -197,8 +206,17 @@ Definition check_budget (cs : list int * (list (list int) * list (list int))) : 
   | _ => mkV 1 0
   end.
 
+(* flood cases (kind 6): more decodable messages than the hand-off queues may hold are ingested while nobody
+   drains them; obs = [[high-priority queue length; low-priority queue length; HandoffQueueDepth]] *)
+Definition check_flood (sel : N) (cs : list int * (list (list int) * list (list int))) : verdict :=
+  match snd (snd cs) with
+  | [[hi; lo; d]] => if (N.eqb sel 0 || N.eqb sel 13) && ((ni d <? ni hi) || (ni d <? ni lo)) then mkV 241 0 else vok
+  | _ => mkV 1 0
+  end.
+
 Definition check_any (sel : N) (cs : list int * (list (list int) * list (list int))) : verdict :=
   match fst cs with
-  | kind :: _ => if Uint63.eqb kind 4 then (if N.eqb sel 0 || N.eqb sel 11 then check_budget cs else vok) else check_case sel cs
+  | kind :: _ => if Uint63.eqb kind 4 then (if N.eqb sel 0 || N.eqb sel 11 then check_budget cs else vok)
+                 else if Uint63.eqb kind 6 then check_flood sel cs else check_case sel cs
   | [] => mkV 1 0
   end.
